@@ -195,3 +195,5 @@ def run(R):
     s2 = R.call(h, "sub", [s1.out, b])
     R.witness("add-sub/premise-reachable", [a, b], [s1, s2], z3.And(Fab, nn(s1.out), nn(s2.out)), z3.And(a != 0, b != 0))
     R.witness("add-sub/nan-reachable", [a, b], [s1], Fab, isnan_raw(s1.out))
+    # the optimised code computes what the source computes (every wrapper, clang -O2)
+    R.tv_guard(h, units())
